@@ -1088,6 +1088,83 @@ func genC14(c *Ctx) {
 		}
 	}
 
+	// fixed family per zoom: longitudes exactly on, one ulp west and one ulp east of column edges (the edge
+	// longitudes computed as Tile.Bound() / mercator.ToGeo do: 360*(x/2^z - 0.5)) and tiny negative
+	// longitudes, through tilecover.Point / MultiPoint / Bound.  lon/360 + 0.5 rounds a longitude just west
+	// of an edge onto the edge: maptile.At's step-back (fix 190fad1) must return the column whose Bound
+	// contains the point.
+	for z := 0; z <= 22; z++ {
+		n := uint64(1) << uint(z)
+		cols := []uint64{1, 2, 3, n/2 - 1, n / 2, n/2 + 1, n - 2, n - 1}
+		for k := uint64(1); k <= 4; k++ {
+			cols = append(cols, (k*2654435761+uint64(z)*40503)%n)
+		}
+		var edges []uint64
+		seen := map[uint64]bool{}
+		for _, x := range cols {
+			if x >= 1 && x < n && !seen[x] {
+				seen[x] = true
+				edges = append(edges, x)
+			}
+		}
+		edgeLon := func(x uint64) float64 { return 360.0 * (float64(x)/float64(n) - 0.5) }
+		around := func(e float64) []float64 {
+			return []float64{math.Nextafter(e, math.Inf(-1)), e, math.Nextafter(e, math.Inf(1))}
+		}
+		var gl []orb.Geometry
+		lats := []float64{0, 45.5, -60.25}
+		for j, x := range edges {
+			e := edgeLon(x)
+			var mp orb.MultiPoint
+			for _, lon := range around(e) {
+				for _, lat := range lats[:2] {
+					gl = append(gl, orb.Point{lon, lat})
+				}
+				mp = append(mp, orb.Point{lon, lats[j%3]})
+			}
+			gl = append(gl, mp)
+			// bounds whose corners sit on / next to edges: this edge to itself and to the next one
+			x2 := edges[(j+1)%len(edges)]
+			for _, xb := range []uint64{x, x2} {
+				lo, hi := x, xb
+				if lo > hi {
+					lo, hi = hi, lo
+				}
+				if hi-lo > 64 {
+					continue // keep the rectangle small
+				}
+				for _, a := range around(edgeLon(lo)) {
+					for _, b := range around(edgeLon(hi)) {
+						if a > b {
+							continue
+						}
+						gl = append(gl, orb.Bound{Min: orb.Point{a, -1 + float64(j)}, Max: orb.Point{b, -1 + float64(j)}})
+					}
+				}
+			}
+		}
+		// tiny longitudes around 0 (the edge of column 2^(z-1)): every lon in about (-2e-14, 0) rounds onto it
+		tiny := []float64{-5e-324, -1e-15, -1e-300, -1.5e-14, math.Copysign(0, -1), 0, 5e-324, 1e-15}
+		var tmp orb.MultiPoint
+		for _, lon := range tiny {
+			gl = append(gl, orb.Point{lon, 0}, orb.Point{lon, 33.25})
+			tmp = append(tmp, orb.Point{lon, -12.5})
+		}
+		gl = append(gl, tmp,
+			orb.Bound{Min: orb.Point{-1e-15, -1}, Max: orb.Point{-5e-324, 1}},
+			orb.Bound{Min: orb.Point{-5e-324, -1}, Max: orb.Point{-5e-324, -1}},
+			orb.Bound{Min: orb.Point{-5e-324, 0}, Max: orb.Point{5e-324, 0}},
+			orb.Bound{Min: orb.Point{-1e-15, 10}, Max: orb.Point{0, 10}},
+			orb.Bound{Min: orb.Point{-1e-15, -10}, Max: orb.Point{1e-15, -10}})
+		for _, geo := range gl {
+			i++
+			if !c.Mine(i) {
+				continue
+			}
+			c.Case("cover", fmt.Sprintf("%d %s", z, gs(geo)))
+		}
+	}
+
 	nm := c.Budget / 3
 	genC14Merge(c, nm)
 
